@@ -35,6 +35,7 @@ Proof.
   all: try rewrite Nat.eqb_refl; try reflexivity.
   all: try (match goal with Hn : ?x <> ?y |- context [Nat.eqb ?y ?x] => destruct (Nat.eqb_spec y x); [congruence|] end;
             eapply (r_rot _ _ HR); eauto; fail).
+  all: try (unmark; rewrite Hs_rot; eapply (r_rot _ _ HR); eauto; fail).
   all: split_ands; symmetry; eapply (r_none _ _ HR); now apply fresh_none.
 Qed.
 
@@ -46,6 +47,7 @@ Proof.
   all: norm; try (eapply (r_none _ _ HR); eauto; fail).
   all: try (match goal with Hn : ?x <> ?y |- context [Nat.eqb ?y ?x] => destruct (Nat.eqb_spec y x); [congruence|] end;
             eapply (r_none _ _ HR); eauto; fail).
+  all: eapply (r_none _ _ HR); eapply mark_restored_none; eauto.
 Qed.
 
 Lemma rpres_pend : forall pre s e s', Inv s -> RInv pre s -> step s e = Some s' ->
@@ -168,6 +170,9 @@ Proof.
   all: norm; try (exists b; auto; fail).
   all: try (eexists; split; [reflexivity|]; proj_simp; auto; fail).
   all: try (split_ands; match goal with H : fresh (bals _) _ = true |- _ => apply fresh_none in H end; congruence).
+  all: try (match goal with |- context [mark_restored ?lbs _] =>
+              destruct (mark_fwd lbs _ _ _ Hb) as [b' [Hb' [[Hs_ts [Hs_rot [Hs_idx _]]] _]]] end;
+            exists b'; rewrite Hs_rot; auto; fail).
   all: eexists; split; [reflexivity|]; proj_simp; rewrite Nat.eqb_refl in Hm; cbn in Hm; now apply nmem_false.
 Qed.
 
@@ -485,6 +490,9 @@ Proof.
   all: norm; try (exists b; auto; fail).
   all: try (eexists; split; [reflexivity|]; proj_simp; auto; fail).
   all: try (split_ands; match goal with H : fresh (bals _) _ = true |- _ => apply fresh_none in H end; congruence).
+  all: try (match goal with |- context [mark_restored ?lbs _] =>
+              destruct (mark_fwd lbs _ _ _ Hb) as [b' [Hb' [[Hs_ts [Hs_rot [Hs_idx _]]] _]]] end;
+            exists b'; rewrite Hs_rot, Hs_idx; auto; fail).
   all: try (rewrite Nat.eqb_refl in Hr; discriminate Hr).
   all: try (match goal with Hn : ?x <> ?y |- context [Nat.eqb ?y ?x] => destruct (Nat.eqb_spec y x); [congruence|] end; exists b; auto; fail).
   all: try (rewrite Nat.eqb_refl; exists b; auto; fail).
